@@ -508,6 +508,14 @@ func c19(r *ev.Run) {
 		}
 		return "survived", ""
 	})
+	r.Scenario("wire-sequence", func(raw []byte) (string, string) {
+		srv, err := startServer()
+		if err != nil {
+			return "", ""
+		}
+		defer srv.stop()
+		return wireRun(srv.addr, unjson[wireCase](raw))
+	})
 	r.Scenario("live-server", func(raw []byte) (string, string) {
 		c := unjson[c19Case](raw)
 		if len(c.Faults) == 0 {
@@ -610,6 +618,31 @@ func c19(r *ev.Run) {
 				}
 			}
 		}
+		// wire level: refused requests carrying bodies of every size class, then probes on the SAME connection
+		// (sequentially and pipelined), written and read byte for byte
+		var wn int64
+		wf := wireFaults()
+		for i, f := range wf {
+			for _, pl := range []bool{false, true} {
+				if slow >= 3 {
+					break
+				}
+				wc := wireCase{f, i, pl}
+				obs, bad := wireRun(srv.addr, wc)
+				wn++
+				if bad != "" {
+					if strings.Contains(bad, "i/o timeout") {
+						slow++
+						r.NotExhaustive(fmt.Sprintf("wire request %q hit the 10 s guard (reported as a cap)", f.Name))
+						continue
+					}
+					r.Fail("wire-sequence", f.Name+fmt.Sprintf(" pipelined=%v: %s", pl, bad), wc, "every probe answered as the reference says", obs+" "+bad)
+				}
+				r.DistinctS("wire:" + obs)
+			}
+		}
+		r.Eval(wn)
+		r.Set("wire_level_sequences", wn)
 		if !srv.alive() {
 			r.Fail("fault-sequence", "live: server process died", c19Case{}, "process alive", "exited")
 		}
